@@ -169,7 +169,9 @@ theorem C18_R4_partial : C18_R4_Partial := by
   | ok p => rw [hp] at hr; exact hn p r t ss1 ss2 hp hr h0 h1 h2
   | _ => rw [hp] at hr; cases hr
 
-/-- the stage-wise facts behind R4 that hold for every program (PCR or not) -/
+/-- the stage-wise facts behind R4 that hold for every program (PCR or not).
+Batch 4: the last fact (symbol resolution is monotone in the table) still holds although `resolve` now follows chains
+of EQUs with the length of the table as fuel: a chain that can be evaluated has no cycle (`resolveF_depth`). -/
 theorem C18_R4_stages :
     (∀ (ls ext : List Str) (r' : List Stmt), parseLines (ls ++ ext) = .ok r' →
       ∃ r rx, parseLines ls = .ok r ∧ parseLines ext = .ok rx ∧ r' = r ++ rx) ∧
